@@ -87,21 +87,41 @@ def gen_tree(rng, with_banks=False):
                 choices.append(("var", k, list(target[k:])))
         return rng.choice(choices)
 
+    # what every constant is defined from: another constant (acyclic by rank), a label (its value is then an address:
+    # known only after layout, and such a constant is not free to move), or a literal
+    label_paths = [p for p, k in decls if k == "label"]
+    plan = {}
+    for p in const_paths:
+        me = tuple(p)
+        deps = [q for q in const_paths if rank[tuple(q)] > rank[me]]
+        r = rng.random()
+        if deps and r < 0.55:
+            plan[me] = ("const", rng.choice(deps))
+        elif label_paths and r < 0.7:
+            plan[me] = ("label", rng.choice(label_paths))
+        else:
+            plan[me] = ("lit", rng.randint(0, 300))
+    addr_dep = set(me for me, (k, _) in plan.items() if k == "label")
+    grew = True
+    while grew:
+        grew = False
+        for me, (k, d) in plan.items():
+            if k == "const" and tuple(d) in addr_dep and me not in addr_dep:
+                addr_dep.add(me)
+                grew = True
     for it in items:
         if it[0] in ("label", "const"):
             level = it[2]
             ctx = ctx[:level] + [it[1]]
         if it[0] == "const":
             me = tuple(ctx)
-            deps = [p for p in const_paths if rank[tuple(p)] > rank[me]]
-            r = rng.random()
-            if deps and r < 0.6:
-                d = rng.choice(deps)
+            k, d = plan[me]
+            if k == "const":
                 e = ("bin", rng.choice(["+", "*", "-", "^"]), ref_to(d, ctx), num(rng.randint(1, 9)))
-            elif r < 0.75 and all_paths and False:
-                e = num(0)
+            elif k == "label":
+                e = ("bin", "+", ref_to(d, ctx), num(rng.randint(0, 9)))
             else:
-                e = num(rng.randint(0, 300))
+                e = num(d)
             out.append(("const", it[1], it[2], e))
         elif it[0] == "ref":
             if not all_paths:
@@ -123,7 +143,7 @@ def gen_tree(rng, with_banks=False):
         banks = [{"name": "main", "unit": 8, "addr": rng.choice([0, 0x100, 0x8000]), "size": None, "outp": 0, "fill": False,
                   "labelalign": rng.choice([16, 32, 64])}]
         out.insert(0, ("bankdef", 0))
-    return {"isa": isa, "banks": banks, "items": out, "fault": None}
+    return {"isa": isa, "banks": banks, "items": out, "fault": None, "addr_consts": set(me[-1] for me in addr_dep)}
 
 
 def inject_fault(rng, prog):
@@ -197,14 +217,15 @@ def move_constant(rng, prog):
     i = 0
     while i < len(items):
         it = items[i]
-        if it[0] == "const" and it[2] == 0:
+        if it[0] == "const" and it[2] == 0 and it[1] not in prog.get("addr_consts", ()):
             j = i + 1
             while j < len(items) and not (items[j][0] in ("label", "const") and items[j][2] == 0):
                 if items[j][0] not in ("const",):
                     break
                 j += 1
-            # block = the constant and directly following nested constants
-            blocks.append((i, j))
+            # block = the constant and directly following nested constants (all of them free of addresses)
+            if not any(items[k][1] in prog.get("addr_consts", ()) for k in range(i, j)):
+                blocks.append((i, j))
         i += 1
     if not blocks:
         return None
